@@ -75,6 +75,15 @@ Fixpoint prefix_of (p s : string) : bool :=
 Fixpoint occurs (p s : string) : bool :=
   prefix_of p s || match s with EmptyString => false | String _ s' => occurs p s' end.
 
+(* ---------- printing a route's group_by (finding printed-config-loses-empty-group-by) ---------- *)
+(* Route.GroupByStr is tagged `group_by,omitempty`: yaml.v2 omits a nil AND an empty slice; decoding a document
+   without the key leaves the field nil. dispatch.newRoute: nil inherits the parent's group_by, a non-nil (even
+   empty) list overrides it. *)
+Definition print_omitempty {A} (o : option (list A)) : option (list A) :=
+  match o with Some [] => None | x => x end.
+Definition effective_group_by (parent : list string) (own : option (list string)) : list string :=
+  default parent own.
+
 (* ---------- the coordinator ---------- *)
 Section Coordinator.
   Context {C : Type}.
